@@ -50,7 +50,7 @@ ASSUMPTIONS = [
 FAULT_KINDS = ["LenaStopFill-from-Slice-mid-flow", "accumulator-exception", "ill-typed-adapter-argument"]
 EXPECTED_PROBES = ["slice-stops-before-flow-end", "slice-stop-inside-split-block", "runif-selected",
                    "filter-rejects", "split-multi-block", "sibling-stops-mid-flow", "watchdog-armed", "adapter-renamed-method",
-                   "adapter-ill-typed"]
+                   "adapter-ill-typed", "adapter-decoy-standard-method"]
 
 ACCS = ["sum", "dsum", "mean", "mean-pass", "mean-sumseq", "vmc", "vectorize", "store",
         "store-items", "groupby", "histogram", "count", "probe"]
@@ -65,8 +65,11 @@ def gen_scenario(tape):
     sc.mode = "adapter" if tape.chance(1, 5, "adapter-mode") else "chain"
     if sc.mode == "adapter":
         sc.adapter = tape.choice(["Call", "Run", "FillInto", "FillCompute", "SourceEl"], "adapter")
-        sc.case = tape.draw(8, "adapter-case")
+        sc.case = tape.draw(12, "adapter-case")
         sc.mname = tape.choice(["go", "apply", "push", "add", "result", "gen", "my_run"], "mname")
+        # the element also has a method with the standard name that does something else:
+        # the adapter must use the name it was given
+        sc.decoy = bool(tape.draw(2, "decoy-standard-method"))
         sc.n = tape.draw(6, "flowlen")
         return sc
     sc.acc = tape.choice(ACCS, "acc")
@@ -106,7 +109,10 @@ def gen_scenario(tape):
         sc.pre.append(("callnone", tape.draw(8, "pred")))
     sc.post = []
     for _ in range(tape.weighted([(3, 0), (3, 1), (1, 2)], "npost")):
-        sc.post.append(tape.choice(["call", "variable", "updatecontext"], "post"))
+        # per-value post elements, and run elements whose output depends on the whole flow of
+        # results (a Slice, Reverse, a second accumulator used as a run element)
+        sc.post.append(tape.choice(["call", "variable", "updatecontext", "slice1", "reverse", "store-run"],
+                                   "post"))
     sc.n = tape.draw(11, "flowlen")
     sc.values = [tape.draw(9, "value") - 2 for _ in range(sc.n)]
     sc.floaty = tape.chance(1, 3, "floats")
@@ -274,6 +280,12 @@ def make_chain(sc, fills):
             els.append(lambda v: ("post", v))
         elif p == "variable":
             els.append(lena.variables.Variable("pv%d" % j, lambda d: ("var", d)))
+        elif p == "slice1":
+            els.append(lena.flow.Slice(1))
+        elif p == "reverse":
+            els.append(lena.flow.Reverse())
+        elif p == "store-run":
+            els.append(lena.flow.StoreFilled())
         else:
             els.append(lena.context.UpdateContext("post.u%d" % j, j + 1))
     return els
@@ -491,11 +503,114 @@ class Obj(object):
     """Element with differently named methods; built per case."""
 
 
+class ObjCallable(Obj):
+    """the same with a standard __call__ that must not be used when a name is given"""
+
+    def __call__(self, *args):
+        if args:
+            return ("decoy", args[0])
+        return iter([("decoy",)])
+
+
+def make_obj(A, decoy):
+    if not decoy:
+        return Obj()
+    o = ObjCallable() if A in ("Call", "SourceEl") else Obj()
+    if A == "Run":
+        o.run = lambda fl: iter([("decoy",)])
+    elif A == "FillInto":
+        o.fill_into = lambda el, v: el.fill(("decoy", v))
+    elif A == "FillCompute":
+        o.fill = lambda v: None
+        o.compute = lambda: iter([("decoy",)])
+    return o
+
+
+def adapter_case2(sc, res):
+    """cases 8-11: a renamed method used through a surrounding sequence, and ill-typed
+    arguments of an element that does have the standard method"""
+    A = sc.adapter
+    name = sc.mname
+    flow = list(range(sc.n))
+    c = sc.case
+    decoy = getattr(sc, "decoy", False)
+    o = make_obj(A, True if c >= 10 else decoy)
+    store = []
+    if c >= 10:
+        # the element has the standard method, but the method that was named is missing (10)
+        # or is not callable (11): LenaTypeError at construction, nothing else
+        if c == 11:
+            setattr(o, name, 5)
+        kw = {"Call": "call", "Run": "run", "FillInto": "fill_into", "FillCompute": "fill",
+              "SourceEl": "call"}[A]
+        getattr(lena.core, A)(o, **{kw: name})
+        return True, None, None
+    res.probe("adapter-renamed-method")
+    if A == "Call":
+        setattr(o, name, lambda v: ("c", v))
+        s = lena.core.Sequence(lambda v: v + 1, lena.core.Call(o, call=name))
+        if c == 8:
+            return False, list(s.run(iter(flow))), [("c", v + 1) for v in flow]
+        fs = lena.core.FillComputeSeq(lena.core.Call(o, call=name), lena.flow.StoreFilled())
+        for v in flow:
+            fs.fill(v)
+        return False, list(fs.compute()), [[("c", v) for v in flow]]
+    if A == "Run":
+        def gen(fl):
+            for v in fl:
+                yield ("r", v)
+        setattr(o, name, gen)
+        if c == 8:
+            s = lena.core.Sequence(lena.core.Run(o, run=name), lambda r: ("post", r))
+            return False, list(s.run(iter(flow))), [("post", ("r", v)) for v in flow]
+        s = lena.core.Source(lena.core.SourceEl(lambda: iter(flow)), lena.core.Run(o, run=name))
+        return False, list(s()), [("r", v) for v in flow]
+    if A == "FillInto":
+        def fi(element, value):
+            if value % 2 == 0:
+                element.fill(("fi", value))
+        setattr(o, name, fi)
+        sink = lena.flow.StoreFilled()
+        ad = lena.core.FillInto(o, fill_into=name)
+        if c == 8:
+            fs = lena.core.FillSeq(ad, sink)
+            for v in flow:
+                fs.fill(v)
+            return False, sink.group, [("fi", v) for v in flow if v % 2 == 0]
+        fcs = lena.core.FillComputeSeq(ad, sink)
+        for v in flow:
+            fcs.fill(v)
+        return False, list(fcs.compute()), [[("fi", v) for v in flow if v % 2 == 0]]
+    if A == "FillCompute":
+        setattr(o, name, store.append)
+        setattr(o, name + "_c", lambda: iter([tuple(store)]))
+        ad = lena.core.FillCompute(o, fill=name, compute=name + "_c")
+        if c == 8:
+            # driven by run: Run(FillCompute(...)) and a Sequence around it
+            got = list(lena.core.Sequence(ad, lambda r: ("post", r)).run(iter(flow)))
+            return False, got, [("post", tuple(flow))]
+        sp = lena.core.Split([lena.core.FillComputeSeq(ad)], bufsize=2)
+        return False, list(sp.run(iter(flow))), [tuple(flow)]
+    setattr(o, name, lambda: iter([("s", v) for v in flow]))
+    if c == 8:
+        s = lena.core.Source(lena.core.SourceEl(o, call=name), lambda v: ("post", v))
+        return False, list(s()), [("post", ("s", v)) for v in flow]
+    sp = lena.core.Split([lena.core.Source(lena.core.SourceEl(o, call=name))])
+    return False, list(sp()), [("s", v) for v in flow]
+
+
+# cases of adapter_case in which a valid method name is given (a decoy standard method may be added)
+VALID_NAMED = {"Call": (0, 1, 6, 7), "Run": (0, 1), "FillInto": (0, 1), "FillCompute": (0, 1, 6, 7),
+               "SourceEl": (0, 1, 6)}
+
+
 def adapter_case(sc, res):
     A = sc.adapter
     name = sc.mname
     n = sc.n
     flow = list(range(n))
+    if getattr(sc, "decoy", False):
+        res.probe("adapter-decoy-standard-method")
     res.say("adapter %s, case %d, method name %r, flow %r" % (A, sc.case, name, flow))
     res.nontrivial = True
     log = res.log
@@ -504,8 +619,11 @@ def adapter_case(sc, res):
     got = None
     exc = None
     try:
-        if A == "Call":
-            o = Obj()
+        if sc.case >= 8:
+            ill = sc.case >= 10
+            _, got, expect = adapter_case2(sc, res)
+        elif A == "Call":
+            o = make_obj(A, getattr(sc, "decoy", False) and sc.case in VALID_NAMED[A])
             if sc.case in (0, 1):
                 setattr(o, name, lambda v: ("c", v))
                 ad = lena.core.Call(o, call=name)
@@ -534,7 +652,7 @@ def adapter_case(sc, res):
                 expect = [(v + 1) * 2 for v in flow]
                 res.probe("adapter-renamed-method")
         elif A == "Run":
-            o = Obj()
+            o = make_obj(A, getattr(sc, "decoy", False) and sc.case in VALID_NAMED[A])
             if sc.case in (0, 1):
                 def gen(fl):
                     for v in fl:
@@ -573,7 +691,7 @@ def adapter_case(sc, res):
                 setattr(o, name, 3)
                 lena.core.Run(o, run=name)
         elif A == "FillInto":
-            o = Obj()
+            o = make_obj(A, getattr(sc, "decoy", False) and sc.case in VALID_NAMED[A])
             sink = lena.flow.StoreFilled()
             if sc.case in (0, 1):
                 def fi(element, value):
@@ -619,7 +737,7 @@ def adapter_case(sc, res):
                 got = sink.group
                 expect = [v + 1 for v in flow if v % 3 != 0]
         elif A == "FillCompute":
-            o = Obj()
+            o = make_obj(A, getattr(sc, "decoy", False) and sc.case in VALID_NAMED[A])
             store = []
             if sc.case in (0, 1, 6, 7):
                 setattr(o, name, store.append)
@@ -651,7 +769,7 @@ def adapter_case(sc, res):
                 o.compute = lambda: iter([])
                 lena.core.FillCompute(o, fill=name)    # missing fill
         else:
-            o = Obj()
+            o = make_obj(A, getattr(sc, "decoy", False) and sc.case in VALID_NAMED[A])
             if sc.case in (0, 1):
                 setattr(o, name, lambda: iter([("s", v) for v in flow]))
                 ad = lena.core.SourceEl(o, call=name)
